@@ -10,6 +10,7 @@ import (
 	"sort"
 	"strings"
 	"testing"
+	"time"
 
 	"github.com/rogpeppe/go-internal/testscript"
 	"pgregory.net/rapid"
@@ -60,10 +61,15 @@ func checkScript(s tsgen.Script) *vt.Fail {
 	if !s.Representable() {
 		return nil
 	}
+	// never run a script the model abstains on: it may wait for a process that never exits
+	if pre := tsmodel.New(s.P, hostFor("/WORKDIR"), s.Files).Run(s.Text); pre.Unmodelled != "" {
+		lastRes = pre
+		return nil
+	}
 	root := tskit.Scratch("c01")
 	defer tskit.RemoveAll(root)
 	r := tskit.NewRecorder()
-	rr := tskit.RunInProcess(root, []tskit.ScriptFile{{Name: s.Name, Data: s.Bytes()}}, tskit.RunOpts{Params: paramsFor(s.P, r), Retain: true})
+	rr := tskit.RunInProcess(root, []tskit.ScriptFile{{Name: s.Name, Data: s.Bytes()}}, tskit.RunOpts{Params: paramsFor(s.P, r), Retain: true, Deadline: 3 * time.Minute})
 	work := filepath.Join(rr.WorkRoot, "script-"+s.Name)
 	m := tsmodel.New(s.P, hostFor(work), s.Files)
 	want := m.Run(s.Text)
@@ -195,7 +201,7 @@ func metaScript(s tsgen.Script) vt.Meta {
 }
 
 func genOpts() tsgen.Options {
-	return tsgen.Options{MaxLines: 25, FailProb: 60, Exec: true, Background: true, Custom: true}
+	return tsgen.Options{MaxLines: 25, FailProb: 60, Exec: true, Background: true, Custom: true, AllowChmod2: true}
 }
 
 func reduceScript(s tsgen.Script) []tsgen.Script {
